@@ -263,6 +263,8 @@ pub struct Ctx {
     pub stats: RefCell<Stats>,
     /// strict = replay mode: known findings are not suppressed by the search machinery
     pub strict: bool,
+    /// shrink budget for proptest (cheap checks raise it)
+    pub shrink_iters: std::cell::Cell<u32>,
 }
 
 impl Ctx {
@@ -276,6 +278,7 @@ impl Ctx {
             known: Known::load(),
             stats: RefCell::new(Stats::default()),
             strict: false,
+            shrink_iters: std::cell::Cell::new(4000),
         }
     }
 
@@ -376,7 +379,7 @@ impl Ctx {
         let config = Config {
             cases: cases.min(u32::MAX as u64) as u32,
             failure_persistence: None,
-            max_shrink_iters: 4000,
+            max_shrink_iters: self.shrink_iters.get(),
             max_global_rejects: 1_000_000,
             max_local_rejects: 1_000_000,
             verbose: 0,
